@@ -202,6 +202,73 @@ pub fn run(report: &Report, _thorough: bool) -> Evidence {
         },
         |st| st.1,
     );
+    // ---- two real presses in a row: every ordered pair of (published key, plane) typed from the idle state on the bundled layout,
+    // all helpers off. The single-press table above sets the state through the hook; whatever a method keeps from one press to the
+    // next (the previous key, a cached table entry) only shows when both keys are really pressed. Expectation for the second press:
+    // the C12 reference step on the text of the first where it defines a result, "not swallowed" elsewhere.
+    let pair_presses = AtomicU64::new(0);
+    {
+        let l = probhat();
+        let v: Value = serde_json::from_str(&std::fs::read_to_string(&l).expect("layout file")).unwrap();
+        let map: HashMap<String, String> = v["layout"].as_object().unwrap().iter().map(|(k, v)| (k.clone(), v.as_str().unwrap().to_string())).collect();
+        let presses: Vec<(u16, u8)> = keys::KEYS.iter().flat_map(|k| [(k.code, 0u8), (k.code, 2u8)]).collect();
+        par_for(
+            presses.len() * 2,
+            1,
+            |w| scratch_xdg(&format!("c04p-{}", w)),
+            |xdg, idx| {
+                let fsugg = idx % 2 == 1;
+                let (c1, m1) = presses[idx / 2];
+                let Some(v1) = expected(&map, c1, m1, true) else { return };
+                let mut o = Opts::fixed(&l, "", xdg);
+                o.numpad = true;
+                o.fsugg = fsugg;
+                let mut ctx = Ctx::new(&o).expect("context for C04");
+                ctx.with_pre = false;
+                for &(c2, m2) in &presses {
+                    let _ = ctx.apply(&Ev::Finish);
+                    let e1 = Ev::Key { code: c1, m: m1, sel: 0 };
+                    let e2 = Ev::Key { code: c2, m: m2, sel: 0 };
+                    let t1 = match ctx.apply(&e1) {
+                        Ok(crate::drv::Out::Sugg(r)) => r.text(),
+                        _ => continue, // (a failing single press is reported by the table above)
+                    };
+                    pair_presses.fetch_add(1, Ordering::Relaxed);
+                    let v2 = expected(&map, c2, m2, true).unwrap_or("");
+                    let got = match ctx.apply(&e2) {
+                        Ok(crate::drv::Out::Sugg(r)) => r.text(),
+                        other => {
+                            report.add(Violation::new("C04", "panic", "panic:pair").opts(&ctx.opts).events(&[e1.clone(), e2.clone()]).detail(format!("second press: {:?}", other)));
+                            continue;
+                        }
+                    };
+                    let exp = if v2.is_empty() {
+                        Some(t1.clone())
+                    } else {
+                        match crate::fxref::fixed_step_ref(&t1, v2, &ctx.opts) {
+                            crate::fxref::RefOut::Text(t) => Some(t),
+                            _ => None,
+                        }
+                    };
+                    let bad = match &exp {
+                        Some(x) => got != *x,
+                        None => got == t1,
+                    };
+                    if bad {
+                        let k2 = keys::by_code(c2).map(|k| k.name).unwrap_or("?");
+                        report.add(
+                            Violation::new("C04", "wrong-text", &format!("pair:{}:m{}", k2, m2))
+                                .opts(&ctx.opts)
+                                .feat("key", k2)
+                                .events(&[e1.clone(), e2.clone()])
+                                .detail(format!("after a real press giving {:?} (value {:?}) the key with the value {:?} gave {:?}; expected {}", t1, v1, v2, got, exp.map(|x| format!("{:?}", x)).unwrap_or("anything but the unchanged text".into()))),
+                        );
+                    }
+                }
+            },
+            |_| (),
+        );
+    }
     let mut nontrivial: HashSet<(usize, u16, bool)> = HashSet::new();
     for s in workers {
         nontrivial.extend(s);
@@ -211,6 +278,7 @@ pub fn run(report: &Report, _thorough: bool) -> Evidence {
     ev.set("distinct_nontrivial", nontrivial.len());
     ev.set("rule", "every (key code 0..=65535, modifier byte in {0,1,2,3,0x80..0x83,0xFC..0xFF}, numpad on/off, layout in {Probhat, layout_synth, layout_karfirst}, idle | after one consonant, suggestions off | on) pressed once with all helpers off; non-trivial = distinct (layout, numpad, key code, AltGr plane) for which the layout file assigns a non-empty value");
     ev.set("exhaustive", true);
+    ev.set("two_real_presses_in_a_row", json!({"layout": "Probhat", "first_presses": 2 * keys::KEYS.len(), "second_presses": 2 * keys::KEYS.len(), "suggestions": "off and on", "pairs_with_a_value_on_the_first_press": pair_presses.load(Ordering::Relaxed)}));
     ev.set("samples", samples.take());
     ev.set("layouts", json!(layouts));
     ev.set("modifier_bytes", json!(MODS));
